@@ -7,6 +7,7 @@ CONSTANTS
   UnlistByIdentity = TRUE
   AttachEarly = TRUE
   KeepHist = FALSE
+  StartKinds <- StartsBoth
   OpKinds <- TOps
 INVARIANTS TypeOK NameUnique OwnerFindable LookupOnlyOpen ListedOnlyLive AfterRuntimeClose AtMostOnce ExactlyOnce
 CONSTRAINT HighWater
